@@ -73,6 +73,9 @@ int vp_harness_main(void) {
   uint8_t *in = (uint8_t *)vp_exact(n); for (uint64_t i = 0; i < N; i++) if (i < n) in[i] = b[i];
   uint8_t usenull = vp_in_u8(); ASSUME(usenull <= 1); if (usenull) ASSUME(n == 0);
   str_t e; uint8_t ref[SMAX + 4]; uint64_t rl = 0;
+#ifdef FAULT
+  { uint32_t fk = vp_in_u32(); ASSUME(fk < FAULT); vp_fail_alloc_at = vp_alloc_count + (int)fk; }   /* C19 */
+#endif
 #if OP == 2
   vp_b64_encode(&e, usenull ? (uint8_t *)0 : in, n);
   ref_b64(b, n, ref, &rl);
@@ -81,6 +84,11 @@ int vp_harness_main(void) {
   vp_hex_encode(&e, usenull ? (uint8_t *)0 : in, n);
   for (uint64_t i = 0; i < N; i++) if (i < n) { ref[2 * i] = hexc(b[i] >> 4); ref[2 * i + 1] = hexc(b[i] & 15); }
   rl = 2 * n;
+#endif
+#ifdef FAULT
+  vp_fail_alloc_at = -1;
+  if (vp_exc_pending) { ASSERT(vp_exc_kind == VP_EXC_BAD_ALLOC, "allocation failure surfaces as std::bad_alloc"); REACH("allocation-failure path"); vp_clear_exception();
+    for (uint64_t i = 0; i < N; i++) if (i < n) ASSERT(in[i] == b[i], "input unchanged"); ASSERT(vp_live_blocks == 0, "no leak after the failed encoding"); REACH("end of harness"); return 0; }
 #endif
   ASSERT(!vp_exc_pending, "encoding does not throw");
   ASSERT(S_inv(&e.f0), "result is a valid string (exact storage, terminator)");
